@@ -21,16 +21,22 @@ CHECKS = {
          '(CPython lookup: hash then ==) behaves as an association list keyed by bit sequences (found through any equal buffer). '
          'Correspondence + oracle on all pairs up to 5/7 bits x 4 side combinations, random long ones, dict/set probes, Buffer==bytes.',
          'proof by refinement + model/code correspondence', '7 C13'),
- 'C16': ('PARTIAL by nature. Theorems c16_*: the value returned by shift/pad is independent of the inplace flag, copy is the identity, '
-         'the effect model returns the receiver unchanged for copying calls, and a manager answers any history like a fresh one (true by '
-         'construction of a functional model). The weight is carried by the harness: every operand of every Buffer operation is '
-         'snapshotted before/after (30k cases), and a long-lived ContextManager is compared call by call with fresh ones while all '
-         'reachable Buffers of packets, rules and context are deep-snapshotted.',
-         'proof (effect model) + snapshot differential testing', '7 C16'),
+ 'C16': ('Theorems c16_* about TWO models. (I) BufferHeap.v / SchcHeap.v: the Buffer class, and compress / decompress (field stage) / '
+         'field matching / rule-id dispatch, written over a heap of mutable Buffer OBJECTS (attribute reads and assignments, constructor calls, '
+         'returned identities, exactly where the Python source has them). Proved for ALL heaps, references, arguments and outcomes incl. '
+         'exceptions: an operation that is not explicitly in place only appends new objects (no existing object changes in any attribute), an '
+         'in-place one changes at most its receiver, results of non-in-place operations are new objects, programs of any length inherit this, '
+         'and every object-level function computes what the value-level model (Buffer.v / SchcBytes.v, run raw against the code) computes, also '
+         'under aliasing. The Buffer heap model is itself run against the implementation: programs of 40 method calls on live objects, outcome, '
+         'identity of the returned object and all four attributes of every held object compared after every step. (II) value level: shift/pad '
+         'independent of the inplace flag, copy is the identity, a manager answers any history like a fresh one. PARTIAL above the Buffer class: '
+         'rules, contexts, descriptors, module-level tables of the real process are covered by the harness only (deep snapshots before/after every '
+         'call, long-lived managers and front ends against fresh ones, process-level histories across stacks, module-table snapshots).',
+         'proof (heap model: frame, freshness, refinement) + model/code correspondence on object programs + snapshot differential testing', '7 C16'),
  'C17': ('Theorems c17_*: encode_length n = the RFC 8724 7.4.2 announcement (4/12/28 bits) for every n < 65536, decode_var of '
          'announcement ++ residue ++ anything returns the residue and consumes exactly width+n bits, announcements are prefix-free, '
          'and a variable-length value-sent/LSB field is rebuilt from its residue with exactly the residue consumed. Correspondence + '
-         'RFC oracle on every size (thorough) or 0..400 + boundaries (quick), and field-level round trips with bits before and after.',
+         'RFC oracle on every size (thorough) or 0..400 + boundaries (quick), and field-level round trips with bits before and after. Byte level (c17_*_bytes): bencode_length / bdecode_var as written on Buffers: canonical left-padded announcement with the RFC bits and width, round trip whatever the padding side of what follows (also when fewer bits follow than announced), prefix-freeness.',
          'proof (arithmetic on bit lists) + model/code correspondence', '7 C17'),
 
  'C01': ('Theorems c01_* : for a packet descriptor and a rule that applies to it (matcher = applicability predicate, C04) and is lossless by '
@@ -38,7 +44,7 @@ CHECKS = {
          'yields the RFC layout and decompress of it returns fields ++ payload; with compute fields under the premise that the compute '
          'stage regenerates the carried values (C09); through cm_compress/cm_decompress for FIRST and BEST with prefix-free ids; the '
          'parser tiling premise is discharged by C07 for all registry stacks. Tie: round trips executed on the implementation for all '
-         'parser configurations, every step compared with the extracted model (incl. the model parser). Byte level (c01_bytes_*): from the raw packet Buffer through the byte-level parsers, matcher, manager, compress and decompress with the compute stage (models written with the Buffer operations the code performs, proved to refine the bit level, and run raw-exact against the code) the packet Buffer comes back; compute premise discharged for IPv6/UDP and IPv4/UDP (c01_stack_*).',
+         'parser configurations, every step compared with the extracted model (incl. the model parser). Byte level (c01_bytes_*): from the raw packet Buffer through the byte-level parsers, matcher, manager, compress and decompress with the compute stage (models written with the Buffer operations the code performs, proved to refine the bit level, and run raw-exact against the code) the packet Buffer comes back; compute premise discharged for IPv6/UDP, IPv4/UDP, bare SCTP, IPv6/SCTP, IPv4/SCTP and SCTP carried in UDP under IPv6 / IPv4 (c01_stack_*, c01_bytes_stack_*: any subset of lengths and checksums computed; the UDP checksum covers the correct SCTP checksum because list.sort runs the SCTP checksum first, proved for every subset).',
          'proof by composition (layout, inversion, dispatch) + model/code correspondence', '7 C01'),
  'C02': ('Theorem c02_layout: whenever the declarative RFC 8724 section 7 layout is defined for (packet, rule, direction), compress returns '
          'exactly it (rule id, residues in rule order incl. 4/12/28-bit sizes of variable-length residues, payload); no-compression rules '
@@ -57,43 +63,43 @@ CHECKS = {
  'C07': ('Theorems c07_*: for EVERY bit string, whenever a header parser accepts, its field values in order are exactly the first '
          '(header length) bits and the header length does not exceed the buffer; for all 7 registry configurations fields ++ payload = input. '
          'Tie: parse of well-formed packets and of the malformed stream (truncations, flips, overwritten length fields, random) vs extracted '
-         'model, tiling judged on the implementation incl. per-header reported lengths.', 'proof by loop invariants over fuelled parsers + model/code correspondence', '7 C07'),
+         'model, tiling judged on the implementation incl. per-header reported lengths. Byte level: c07_packet_bytes, c07_bytes_refine (byte-level parsers tile the packet Buffer and refine the bit-level ones).', 'proof by loop invariants over fuelled parsers + model/code correspondence', '7 C07'),
  'C09': ('Theorems c09_*: each compute function of the model returns the RFC-defined value (RFC-side definitions written independently in '
          'RfcChecksum.v): byte lengths, IPv4 header checksum and UDP checksum over IPv6/IPv4 pseudo-headers as one\'s complement arithmetic '
          'modulo 65535 (fold with end-around carry proved equal to it), CRC-32c table entries equal to the bit-serial definition (complete '
          'finite check lifted) and table-driven loop equal to the bit-serial register. Tie: compute functions called directly and through '
-         'decompress on packets with independently computed checksums incl. 0x0000/0xFFFF corner values vs extracted model. Byte level: c07_packet_bytes, c07_bytes_refine (byte-level parsers tile the packet Buffer and refine the bit-level ones). Byte level: c09_bytes_table (the functions as written on Buffers refine them, same dependency sets); order of execution = CPython list.sort modelled in PySort.v (c09_sort_*, c09_udp_after_sctp).',
+         'decompress on packets with independently computed checksums incl. 0x0000/0xFFFF corner values vs extracted model. Byte level: c09_bytes_table (the functions as written on Buffers refine them, same dependency sets); order of execution = CPython list.sort modelled in PySort.v (c09_sort_*, c09_udp_after_sctp).',
          'proof (arithmetic mod 65535, GF(2) linearity of CRC) + model/code correspondence', '7 C09'),
  'C10': ('Theorems c10_*: FIRST = compress with the first applying rule (or the rule-match error); BEST = output of an applying rule, no '
          'applying rule shorter, ties to the earliest; BEST <= FIRST; a no-compression rule always applies. Tie: ContextManager.compress on '
          'rule sets of 1..8 rules x FIRST/BEST x Up/Dw vs extracted model (model parser+matcher+compressor) vs reference selection. Byte level: c10_manager_bytes (ContextManager.compress on Buffers has the outcome of the bit-level manager).',
          'proof (list minimum with strict comparison) + model/code correspondence', '7 C10'),
  'C11': ('Theorems c11_*: with prefix-free ids of any lengths the rule whose id leads the bit string is returned whatever follows; no id a '
-         'prefix (incl. shorter strings) gives RuleIDMatchError; a returned rule is the first whose id is a prefix. Tie: every prefix code '
+         'prefix (incl. shorter strings, incl. the EMPTY rule set since the fix of the unbound loop variable) gives RuleIDMatchError; a returned rule is the first whose id is a prefix. Tie: every prefix code '
          'of total length <= 5 (quick) / 6 (thorough) in every order x every string <= 7 bits, random codes to 16 bits. Byte level: c11_found_bytes, c11_manager_bytes, c11_compressed_bytes.',
          'proof (prefix comparability) + exhaustive small-scope correspondence', '7 C11'),
  'C14': ('Theorems c14_*: for EVERY bit string each header parser and each registry configuration of the model returns a descriptor or '
          'ParserError: never Diverge (loops run on fuel = bit length + 1; each CoAP option consumes >= 8 bits, each SCTP chunk / parameter '
-         '>= 32), never another exception. Tie: malformed stream on the implementation with a 5 s limit per case vs extracted model. Byte level: c14_stack_bytes (the byte-level parsers are total on canonical left-padded buffers).',
+         '>= 32), never another exception. Tie: malformed stream on the implementation with a limit of 20 s CPU time per call vs extracted model. Byte level: c14_stack_bytes (the byte-level parsers are total on canonical left-padded buffers).',
          'proof of totality with explicit fuel + model/code correspondence', '7 C14'),
  'C15': ('Theorems c15_*: no applying rule gives RuleDescriptorMatchError under FIRST and BEST, an unparsable packet gives the parser\'s error, '
          'no leading rule id gives RuleIDMatchError; the front end skips contexts signalling these errors in order, takes the first other '
-         'outcome, and returns the packet unchanged when none applies. Tie: manager error cases and front-end histories over 1..4 contexts '
-         'vs extracted model.', 'proof (case analysis of the front-end loops) + model/code correspondence', '7 C15'),
+         'outcome, and returns the packet unchanged when none applies; a context without any rule is skipped like the others. Tie: manager error cases and front-end histories over 1..4 contexts (some without rules, strategies also given by value) '
+         'vs extracted model. Byte level: c15_nomatch_bytes, c15_noid_bytes, c15_front_compress_bytes, c15_front_decompress_bytes.', 'proof (case analysis of the front-end loops) + model/code correspondence', '7 C15'),
  'C18': ('Theorems c18_*: the descriptors used for direction d are exactly those marked d or Bi in rule order, by the matcher, compress and '
          'decompress alike (same select function), and such a rule round-trips packets of direction d. Tie: rules with Up/Dw alternatives at '
-         'every position x both directions through the bare functions and the ContextManager vs extracted model. Byte level: c15_nomatch_bytes, c15_noid_bytes, c15_front_compress_bytes, c15_front_decompress_bytes.',
+         'every position x both directions through the bare functions and the ContextManager vs extracted model; descriptor lists of different lengths per direction. Byte level: c18_select_bytes, c18_matcher_bytes, c18_roundtrip_bytes (bselect_fds, brule_matches, bcompress / bdecompress on Buffers).',
          'proof (common selection function) + model/code correspondence', '7 C18'),
  'C20': ('Theorems c20_*: for rules well-formed for decompression (typed target values, compute fields with protocol lengths inside a '
          'supported stack shape, bounded static bits) and EVERY bit string shorter than 65000 bytes, decompress returns a buffer; through the '
          'manager: a buffer or RuleIDMatchError. The static bound is shown necessary by a witness. Tie: truncations, bit flips, size '
-         'escapes, random strings through ContextManager.decompress (5 s limit) vs extracted model. Byte level: c20_rule_total_bytes.',
+         'escapes, random strings through ContextManager.decompress (20 s CPU-time limit per call), empty rule sets included vs extracted model. Byte level: c20_rule_total_bytes.',
          'proof of totality (per-function totality lemmas, shape invariant of the compute stage) + model/code correspondence', '7 C20'),
 
  'C12': ('Theorems c12_*: for canonical buffers, mappings with pairwise different values and indices, and objects built from them, '
          'from_json(to_json x) = x (Leibniz equality of the model records, hence identical behaviour and identical re-serialisation) for '
          'Buffer (through the byte-level constructor), MatchMapping (reverse dict comprehension and reload through the dict model), field / '
-         'packet descriptors, rule field descriptors (target value type chosen from the JSON value), rules and contexts. json.dumps/loads, '
+         'header / packet descriptors, rule field descriptors (target value type chosen from the JSON value), rules and contexts. json.dumps/loads, '
          'hex and enum<->str conversions trusted. Tie: JSON text and round-trip flags of every class vs extracted model; on the implementation: '
          '==, re-serialisation, Padding membership of reloaded paddings, and managers on original vs reloaded contexts give bit-identical results.',
          'proof (structural round trip through the dict model) + model/code correspondence', '7 C12'),
@@ -102,7 +108,7 @@ CHECKS = {
          'model) parse(encode m) = the prescribed field list (identifiers, order, occurrence positions, lengths, values) and header length: '
          'fixed IPv6/IPv4/UDP headers followed by anything, CoAP with token 0..8 and any option list over the three delta/length classes, '
          'SCTP with every chunk type, parameters and padding, the two explicit stacks, and the predictive parsers (agreeing with the explicit '
-         'stacks). Tie: protocol-aware generators vs extracted model vs independent reference field lists in Python.',
+         'stacks). Tie: protocol-aware generators vs extracted model vs independent reference field lists in Python. Byte level (c08_*_bytes): the byte-level parsers on ANY canonical left-padded Buffer spelling the encoded message return canonical field Buffers with exactly the RFC ids, positions and bits.',
          'proof (parser inverts the RFC encoder, induction over options / chunks / parameters) + model/code correspondence', '7 C08'),
  'C19': ('Theorems c19_*: for every well-formed CoAP message, semantic parsing returns one field per option named after its number with its '
          'value, un-parsing those fields returns exactly the syntactic field sequence (ids and values), hence parse-semantic then unparse '
